@@ -79,11 +79,14 @@ def zone_addr(z, off):
         return off
     if z == "cst":
         return cst(off, 32)
+    if z == "cstw":
+        # a pointer with a constant base whose displacement wraps the address size: the same concrete address
+        return ptr(cst(0xFFFFFFF8, 32), disp=8 + off)
     return ptr(reg(z, 32), disp=off)
 
 
 def zkey(z):
-    return None if z in ("int", "cst") else z
+    return None if z in ("int", "cst", "cstw") else z
 
 
 # ----------------------------------------------------------------- model
@@ -484,7 +487,7 @@ def plans(tier):
     full_int = write_ops(["int"], True)
     red_int = write_ops(["int"], False)
     full_p = write_ops(["p"], True)
-    red_mixed = write_ops(["int", "cst", "p"], False, offs=[0, 1, 2, 3])
+    red_mixed = write_ops(["int", "cst", "cstw", "p"], False, offs=[0, 1, 2, 3])
     P = []
     if tier == "quick":
         P.append(("depth2-full-concrete", [full_int, full_int]))
@@ -496,7 +499,7 @@ def plans(tier):
         P.append(("depth3-full-symbolic", [full_p, full_p, red_int and write_ops(["p"], False)]))
         r4 = write_ops(["int"], False, offs=[0, 1, 2, 3])
         P.append(("depth4-reduced-concrete", [r4, r4, r4, r4]))
-        r3m = write_ops(["int", "cst", "p", "q"], False, offs=[0, 1, 2, 3])
+        r3m = write_ops(["int", "cst", "cstw", "p", "q"], False, offs=[0, 1, 2, 3])
         P.append(("depth3-mixed-zones", [r3m, r3m, r3m]))
     return P
 
